@@ -648,6 +648,7 @@ class CaseRun:
             st = self.stats
             st["events"] += sched.events
             st["switches"] += sched.switches
+            st["hot_points"] = st.get("hot_points", 0) + sched.hot_points
             st["faults"]["preempt"] += sched.switches
             for k2, v2 in sched.switch_sites.items():
                 st["switch_sites"][k2] = st["switch_sites"].get(k2, 0) + v2
@@ -829,6 +830,8 @@ class CaseRun:
                     got=got,
                     sequential=b[2],
                 )
+                # a result already reported as wrong is not re-judged by the aliasing oracles (no cascades)
+                values.pop(key, None)
 
     def finish_id(
         self, pname: str, key: tuple, spec: dict, e: tuple, status: str, val: Any, results: dict, base: dict | None, judged: bool
